@@ -1,5 +1,9 @@
 #include "oracle.hpp"
-#include <cstring>
+
+std::map<std::string, FamilyFn>& families() {
+	static std::map<std::string, FamilyFn> m;
+	return m;
+}
 
 int main(int argc, char** argv) {
 	if (argc < 2) {
@@ -7,8 +11,10 @@ int main(int argc, char** argv) {
 		return 2;
 	}
 	std::ios::sync_with_stdio(false);
-	if (!std::strcmp(argv[1], "util"))
-		return oracle_util(argc - 1, argv + 1);
-	std::cerr << "unknown family " << argv[1] << "\n";
-	return 2;
+	auto it = families().find(argv[1]);
+	if (it == families().end()) {
+		std::cerr << "unknown family " << argv[1] << "\n";
+		return 2;
+	}
+	return it->second(argc - 1, argv + 1);
 }
